@@ -194,8 +194,9 @@ fn main() {
             let seed: u64 = arg_val(&args, "--seed").or_else(|| std::env::var("VERIF_SEED").ok()).and_then(|s| s.parse().ok()).unwrap_or(1);
             match what.as_str() {
                 "determinism" => std::process::exit(check::cmd_selftest_determinism(runs, seed)),
+                "probes" => std::process::exit(check::cmd_selftest_probes(seed)),
                 _ => {
-                    eprintln!("usage: simctl selftest determinism [--runs N]");
+                    eprintln!("usage: simctl selftest determinism [--runs N] | probes");
                     std::process::exit(2);
                 }
             }
